@@ -58,6 +58,7 @@ type crash struct {
 	Case   int
 	Exit   int
 	Stderr string
+	Full   string
 }
 
 type foundViolation struct {
@@ -139,7 +140,7 @@ func Orchestrate(prop, tier string, seed uint64, workerExe string) int {
 				}
 				eb, _ := os.ReadFile(errp)
 				mu.Lock()
-				crashes = append(crashes, crash{Case: inflight, Exit: code, Stderr: tail(string(eb), 12000)})
+				crashes = append(crashes, crash{Case: inflight, Exit: code, Stderr: panicExcerpt(string(eb)), Full: tail(string(eb), 400000)})
 				mu.Unlock()
 				if inflight < 0 {
 					// died outside any case: do not loop forever
@@ -215,6 +216,8 @@ func Orchestrate(prop, tier string, seed uint64, workerExe string) int {
 		switch {
 		case cr.Exit == 3:
 			inconclusive = append(inconclusive, fmt.Sprintf("case %d: watchdog fired", cr.Case))
+			os.MkdirAll(filepath.Join(VerifRoot(), "replays"), 0o755)
+			os.WriteFile(filepath.Join(VerifRoot(), "replays", fmt.Sprintf("%s-watchdog-%d.txt", prop, cr.Case)), []byte(cr.Full), 0o644)
 		case fr != "" && ck.CrashIsViolation && cr.Case >= 0:
 			addViol(Violation{
 				Key:    "crash:" + fr,
@@ -415,6 +418,27 @@ func readWorkerOut(path string, mu *sync.Mutex, results map[int]*Result) (inflig
 		}
 	}
 	return
+}
+
+// panicExcerpt keeps the panic header with the panicking goroutine's stack
+// (with GOTRACEBACK=all every goroutine follows) or, failing that, the tail.
+func panicExcerpt(s string) string {
+	for _, m := range []string{"panic: ", "fatal error: ", "FAKEPG INTERNAL PANIC"} {
+		if i := strings.Index(s, m); i >= 0 {
+			rest := s[i:]
+			// the first goroutine block after the header is the panicking one
+			if j := strings.Index(rest, "\n\ngoroutine "); j >= 0 {
+				if k := strings.Index(rest[j+2:], "\n\n"); k >= 0 {
+					rest = rest[:j+2+k]
+				}
+			}
+			if len(rest) > 8000 {
+				rest = rest[:8000]
+			}
+			return rest
+		}
+	}
+	return tail(s, 8000)
 }
 
 func tail(s string, n int) string {
